@@ -288,7 +288,12 @@ func reuseEvent(typ string, mk func() interface{}, un func(p interface{}, b []by
 	ev := M{"ev": "reuse", "type": typ, "b1": bs(b1), "b2": bs(b2)}
 	used, fresh := mk(), mk()
 	r1, _ := observeFast(func() error { return un(used, append([]byte{}, b1...)) })
+	// what a caller keeps after the first decode: a copy of the VALUE (slices inside it still point to what the decoder built)
+	kept := reflect.New(reflect.TypeOf(used).Elem())
+	kept.Elem().Set(reflect.ValueOf(used).Elem())
+	ev["kept1"] = proj(kept.Interface())
 	r2, _ := observeFast(func() error { return un(used, append([]byte{}, b2...)) })
+	ev["kept2"] = proj(kept.Interface()) // ... must still read the same after the variable was decoded into again
 	r3, _ := observeFast(func() error { return un(fresh, append([]byte{}, b2...)) })
 	ev["err1"], ev["err2"], ev["errfresh"] = r1, r2, r3
 	ev["used"] = proj(used)
@@ -320,6 +325,12 @@ func (c *ctx) reuseEvents() {
 		c.emit(reuseEvent(fmt.Sprintf("cflist/%d", t), func() interface{} { return &lorawan.CFList{} },
 			func(p interface{}, b []byte) error { return p.(*lorawan.CFList).UnmarshalBinary(b) },
 			func(p interface{}) interface{} { return cflistToVal(p.(*lorawan.CFList)) }, b1, b2))
+	}
+	for _, up := range []bool{true, false} {
+		upp := up
+		c.emit(reuseEvent(fmt.Sprintf("datapayload/%v", up), func() interface{} { return &lorawan.DataPayload{} },
+			func(p interface{}, b []byte) error { return p.(*lorawan.DataPayload).UnmarshalBinary(upp, b) },
+			func(p interface{}) interface{} { return bs(p.(*lorawan.DataPayload).Bytes) }, c.bytesN(1+c.rnd.Intn(40)), c.bytesN(c.rnd.Intn(30))))
 	}
 	c.emit(reuseEvent("phy", func() interface{} { return &lorawan.PHYPayload{} },
 		func(p interface{}, b []byte) error { return p.(*lorawan.PHYPayload).UnmarshalBinary(b) },
